@@ -103,6 +103,25 @@ pub fn judge(v: f64, acc: f32, max_den: u8, max_whole: u32, r: Option<Number>) -
             if parsed != exact {
                 return bad("display_not_that_fraction", format!("{shown:?} parses to {parsed}, fraction is {exact}"));
             }
+            // the same under format specifications (width, alignment, precision): padding aside, what is printed still
+            // denotes that fraction — exactly when it is written `w n/d`, to the printed precision when it is a decimal
+            let denote = |t: &str| -> f64 {
+                t.split(' ')
+                    .filter(|p| !p.is_empty())
+                    .map(|p| match p.split_once('/') {
+                        Some((a, b)) => a.parse::<f64>().unwrap_or(f64::NAN) / b.parse::<f64>().unwrap_or(f64::NAN),
+                        None => p.parse::<f64>().unwrap_or(f64::NAN),
+                    })
+                    .sum()
+            };
+            for (spec, text, prec) in [("{:.0}", format!("{n:.0}"), 0), ("{:.1}", format!("{n:.1}"), 1), ("{:.3}", format!("{n:.3}"), 3), ("{:12}", format!("{n:12}"), 17), ("{:<9.2}", format!("{n:<9.2}"), 2), ("{:>4.1}", format!("{n:>4.1}"), 1), ("{:^7}", format!("{n:^7}"), 17)] {
+                let t = text.trim();
+                let p = denote(t);
+                let ok = if t.contains('/') || prec == 17 { p == exact } else { (p - exact).abs() <= 0.5 * 10f64.powi(-prec) * (1.0 + 1e-9) };
+                if !ok {
+                    return bad("display_with_format_spec_misstates", format!("{n:?} printed with {spec} gives {text:?}, the fraction is {want}"));
+                }
+            }
             Ok(if num == 0 { "rounded_whole" } else { "fraction" })
         }
     }
@@ -251,6 +270,8 @@ fn callers(ctx: &mut Ctx) {
     for i in 0..n {
         let u = units[(i % units.len() as u64) as usize];
         let v = if i % 3 == 0 { (r.below(4000) as f64) / 16.0 } else { r.log_uniform(1e-3, 1e4) };
+        // one in seven negative: a fraction cannot carry a sign, so none of the callers may produce one
+        let v = if i % 7 == 6 { -v } else { v };
         let range_end = if i % 5 == 4 { Some(v * *r.pick(&[1.125, 1.5, 5.5, 6.0, 1.25, 2.0, 16.0])) } else { None };
         for op in 0..3 {
             let value0 = match range_end {
@@ -275,6 +296,9 @@ fn callers(ctx: &mut Ctx) {
                 ctx.panic_violation(&case, "caller", p);
                 continue;
             }
+            if v < 0.0 {
+                ctx.count("caller_negative_inputs");
+            }
             let numbers: Vec<(&str, Number)> = match q.value() {
                 Value::Number(n) => vec![("value", *n)],
                 Value::Range { start, end } => vec![("range start", *start), ("range end", *end)],
@@ -282,6 +306,10 @@ fn callers(ctx: &mut Ctx) {
             };
             for (which, number) in numbers {
                 let Number::Fraction { whole, num, den, err } = number else { continue };
+                if v <= 0.0 && !matches!(u, "F" | "C") {
+                    ctx.violation(&case, "caller", "non_positive_value_became_fraction", format!("{v} {u} -> {q} ({which} {number:?})"));
+                    continue;
+                }
                 ctx.count("caller_fraction_results");
                 if which != "value" {
                     ctx.count("caller_fraction_results_in_ranges");
